@@ -219,11 +219,42 @@ pub fn run(args: &Args, out: &mut Out) {
     let ncorpus = files.len();
     let ngen = args.cases(80, 3000);
     let exec = exec_with(args);
+    // small projects whose external modules (files next to main.mmm) have the same names but other
+    // contents: each is compiled after the others were compiled in the same process
+    let mut projects: Vec<std::path::PathBuf> = std::fs::read_dir(super::c01::verif_dir().join("corpus/projects"))
+        .map(|rd| rd.filter_map(|e| e.ok()).map(|e| e.path().join("main.mmm")).filter(|p| p.exists()).collect())
+        .unwrap_or_default();
+    projects.sort();
+    let nproj = projects.len();
+    let project_case = |f: &std::path::Path, seed: u64| -> Option<Case> {
+        Some(Case {
+            src: std::fs::read_to_string(f).ok()?,
+            n: 8,
+            input_seed: seed,
+            finite_inputs: true,
+            prog: None,
+            expect: None,
+            scheduler: true,
+            path: Some(f.to_string_lossy().to_string()),
+            origin: Some(format!("project:{}", f.parent()?.file_name()?.to_string_lossy())),
+            split: None,
+        })
+    };
     drive(
         args,
         out,
-        ncorpus + ngen,
+        ncorpus + ngen + nproj * 2,
         |idx, rng| {
+            if idx >= ncorpus + ngen {
+                let k = idx - (ncorpus + ngen);
+                let main = project_case(&projects[k % nproj], rng.next())?;
+                // history: the other projects, in two orders
+                let mut others: Vec<Case> = (0..nproj).filter(|i| *i != k % nproj).filter_map(|i| project_case(&projects[i], 1)).collect();
+                if k >= nproj {
+                    others.reverse();
+                }
+                return Some((main, others));
+            }
             let mk_corpus = |i: usize, rng: &mut crate::util::Rng| -> Option<Case> {
                 let f = &files[i];
                 let src = std::fs::read_to_string(f).ok()?;
